@@ -393,14 +393,16 @@ impl<'a> Page<'a> {
         Ok(())
     }
 
-    fn rebuild_leaf(&mut self, right_sibling: PageId, entries: &[(Vec<u8>, u64)]) {
+    fn rebuild_leaf(&mut self, right_sibling: PageId, entries: &[(Vec<u8>, u64)]) -> Result<()> {
         self.init_leaf();
         self.set_right_sibling(right_sibling);
         // Insert in order, no need for binary search.
         for (i, (k, v)) in entries.iter().enumerate() {
-            // Guaranteed to fit because split/build ensures it.
-            self.leaf_insert_at(i, k, *v).unwrap();
+            // Normally fits because split/build sized the halves; an oversized key does not,
+            // and that has to surface as an error rather than a panic.
+            self.leaf_insert_at(i, k, *v)?;
         }
+        Ok(())
     }
 
     fn rebuild_internal(
@@ -481,10 +483,10 @@ impl BTree {
                             let old_right = page.right_sibling();
                             let mut entries: Vec<(Vec<u8>, u64)> = (0..page.cell_count())
                                 .map(|i| {
-                                    let (k, v) = page.leaf_cell_key_and_payload(i).unwrap();
-                                    (k.to_vec(), v)
+                                    page.leaf_cell_key_and_payload(i)
+                                        .map(|(k, v)| (k.to_vec(), v))
                                 })
-                                .collect();
+                                .collect::<Result<Vec<_>>>()?;
                             // Insert new entry into the sorted list.
                             let pos = entries
                                 .binary_search_by(|(k, _)| k.as_slice().cmp(key))
@@ -498,8 +500,8 @@ impl BTree {
 
                             let right_id = pager.allocate_page()?;
                             let mut right_buf = [0u8; PAGE_SIZE];
-                            Page::new(&mut right_buf).rebuild_leaf(old_right, &right_entries);
-                            page.rebuild_leaf(right_id, &left_entries);
+                            Page::new(&mut right_buf).rebuild_leaf(old_right, &right_entries)?;
+                            page.rebuild_leaf(right_id, &left_entries)?;
 
                             pager.write_page(cur, &buf)?;
                             pager.write_page(right_id, &right_buf)?;
@@ -535,13 +537,14 @@ impl BTree {
                 PageKind::Leaf => {
                     let mut page = Page::new(&mut buf);
                     // Use binary search to find exact match
+                    let cells = (0..page.cell_count())
+                        .map(|i| {
+                            page.leaf_cell_key_and_payload(i)
+                                .map(|(k, v)| (k.to_vec(), v))
+                        })
+                        .collect::<Result<Vec<(Vec<u8>, u64)>>>()?;
                     if let Ok(idx) =
-                        (0..page.cell_count())
-                            .collect::<Vec<_>>()
-                            .binary_search_by(|&i| {
-                                let (k, v) = page.leaf_cell_key_and_payload(i).unwrap();
-                                (k, v).cmp(&(key, payload))
-                            })
+                        cells.binary_search_by(|(k, v)| (k.as_slice(), *v).cmp(&(key, payload)))
                     {
                         // Found it, delete in place
                         page.delete_from_leaf(idx)?;
@@ -688,7 +691,7 @@ impl BTree {
 
             // Finalize current leaf and start a new one.
             let next_leaf_id = pager.allocate_page()?;
-            cur_leaf.rebuild_leaf(next_leaf_id, &leaf_entries);
+            cur_leaf.rebuild_leaf(next_leaf_id, &leaf_entries)?;
             pager.write_page(cur_leaf_id, &cur_leaf_buf)?;
             leaf_pages.push((cur_leaf_id, leaf_min_key.take().unwrap()));
 
@@ -704,7 +707,7 @@ impl BTree {
         }
 
         // Finalize the last leaf.
-        cur_leaf.rebuild_leaf(PageId::new(0), &leaf_entries);
+        cur_leaf.rebuild_leaf(PageId::new(0), &leaf_entries)?;
         pager.write_page(cur_leaf_id, &cur_leaf_buf)?;
         if let Some(min) = leaf_min_key {
             leaf_pages.push((cur_leaf_id, min));
